@@ -3939,6 +3939,12 @@ static void scan_globals(void) {
     // still incomplete at the end of the translation unit has one element.
     if (var->ty->kind == TY_ARRAY && var->ty->size < 0)
       var->ty = array_of(var->ty->base, 1);
+
+    // A struct or union type that was incomplete when the object was
+    // declared may have been completed since. The alignment of the
+    // object was taken from the incomplete type.
+    if (var->align < var->ty->align)
+      var->align = var->ty->align;
     cur = cur->next = var;
   }
 
